@@ -76,12 +76,36 @@ impl GenCfg {
         g
     }
     pub fn rich() -> GenCfg {
-        GenCfg {
+        let mut g = GenCfg {
             names: RICH.iter().map(|s| s.to_string()).collect(),
             attrs: ATTRS.iter().map(|s| s.to_string()).collect(),
             ..GenCfg::plain()
+        };
+        // constants of the code under test that can be XML names (see checklib/common.py harvest_literals)
+        for l in literals().iter().filter(|l| is_xml_name(l)) {
+            if !g.names.contains(l) {
+                g.names.push(l.clone());
+            }
+            if !g.attrs.contains(l) && !l.starts_with("xmlns") {
+                g.attrs.push(l.clone());
+            }
         }
+        g
     }
+}
+
+/// the literals harvested from the source under test (file named by VERIF_LITERALS, one per line)
+pub fn literals() -> &'static Vec<String> {
+    static L: std::sync::OnceLock<Vec<String>> = std::sync::OnceLock::new();
+    L.get_or_init(|| std::env::var("VERIF_LITERALS").ok().and_then(|p| std::fs::read_to_string(p).ok())
+        .map(|t| t.lines().filter(|l| !l.is_empty()).map(|l| l.to_string()).collect()).unwrap_or_default())
+}
+
+pub fn is_xml_name(s: &str) -> bool {
+    let mut c = s.chars();
+    matches!(c.next(), Some(f) if f.is_ascii_alphabetic() || f == '_')
+        && s.chars().all(|x| x.is_ascii_alphanumeric() || matches!(x, '_' | '-' | '.' | ':'))
+        && s.matches(':').count() <= 1 && !s.ends_with(':') && !s.starts_with("xml")
 }
 
 fn decoration(r: &mut Rng, out: &mut Vec<u8>) {
@@ -150,6 +174,8 @@ fn element(r: &mut Rng, g: &GenCfg, name: &str, depth: usize, out: &mut Vec<u8>,
         *n += 1;
         // attribute values in every legal shape: other quotes, a `>` or a line break inside, surrounding blanks
         match r.below(12) {
+            0 if !g.data_oriented && !literals().is_empty() && r.chance(1, 3) =>
+                out.extend_from_slice(format!(" {}='{}'", a, literals()[*n % literals().len()].replace('\'', "")).as_bytes()),
             0 => out.extend_from_slice(format!(" {}='v{:03}'", a, n).as_bytes()),
             1 => out.extend_from_slice(format!(" {}=\"v{:03} > x\"", a, n).as_bytes()),
             2 => out.extend_from_slice(format!("\n  {} = \"v{:03}\"", a, n).as_bytes()),
@@ -477,6 +503,24 @@ pub fn boundary_session(r: &mut Rng, kind: usize, n: usize) -> Vec<Vec<u8>> {
             vec![format!("<r {0}=\"v001\"><{0}><x/></{0}><{1}>t002</{1}></r>", long, upper).into_bytes()]
         }
     }
+}
+
+/// constants of the code under test as element / attribute names (two occurrences of the element so that the optional
+/// and repeated decisions are exercised), in the shape of the specification's cases
+pub fn literal_event_cases() -> Vec<serde_json::Value> {
+    use serde_json::json;
+    let names: Vec<&String> = literals().iter().filter(|l| is_xml_name(l)).collect();
+    let mut out = Vec::new();
+    for (i, n) in names.iter().enumerate() {
+        let other = names[(i + 1) % names.len()];
+        let ev = |kind: &str, name: &str, attrs: Vec<&str>| json!({"kind": kind, "name": name, "attrs": attrs, "fault": "none"});
+        let evs = vec![ev("Start", "r", vec![]), ev("Start", n, vec![other.as_str()]), ev("Text", "", vec![]), ev("End", "", vec![]),
+                       ev("Empty", n, vec![n.as_str()]), ev("Empty", "x", vec![n.as_str(), other.as_str()]), ev("End", "", vec![]), ev("Eof", "", vec![])];
+        if n.as_str() != other.as_str() && !n.starts_with("xmlns") && !other.starts_with("xmlns") {
+            out.push(json!({"indomain": true, "expect": {"st": "ok"}, "calls": [{"op": "parse", "events": evs}], "literal": n}));
+        }
+    }
+    out
 }
 
 /// the boundary chains as event sequences in the shape of the specification's cases (for the rewrite relations)
